@@ -148,6 +148,8 @@ def run(loader, R, tier):
                     "function")
     R.rule("R42.3", "Expression operators delegate to the matching core "
                     "function")
+    R.rule("R42.6", "C integer parameters reach the C++ API through a "
+                    "type that represents all their values")
     R.rule("R42.5", "index parameters are range-tested at run time before "
                     "they subscript a container or address a matrix element")
     R.rule("R42.4", "a handle whose type is validated at run time is cast "
@@ -422,6 +424,61 @@ def run(loader, R, tier):
                         f["n"], sorted(used - tested), what))
         sym.visit_guarded(f["body"], cb5)
     R.floor("indexed accesses driven by C integer parameters", nidx, 5)
+
+    # ---------------------------------------------------------------- R42.6
+    # value-preserving hand-over of integers: an integer parameter of a C
+    # function reaches the C++ API only through a parameter type that can
+    # represent all its values; an implicit unsigned long -> long (or
+    # long -> unsigned long) conversion silently changes large / negative
+    # arguments (no error code).
+    RANK = {"bool": 1, "char": 8, "signed char": 8, "unsigned char": 8,
+            "short": 16, "unsigned short": 16, "int": 32, "unsigned int": 32,
+            "unsigned": 32, "long": 64, "unsigned long": 64, "size_t": 64,
+            "long long": 64, "unsigned long long": 64, "std::size_t": 64}
+
+    def sign(t):
+        return "u" if ("unsigned" in t or "size_t" in t or t == "bool") \
+            else "s"
+    nint = 0
+    for f in ec:
+        cints = {p["n"]: strip_type(p["t"]) for p in f.get("params", ())
+                 if strip_type(p["t"]) in RANK
+                 and not p["t"].rstrip().endswith("*")}
+        if not cints:
+            continue
+        for n in walk(f["body"]):
+            if n.get("k") not in ("call", "mcall", "ctor") or not n.get("u"):
+                continue
+            ps = prog.header(n["u"]).get("params", ())
+            for i, a in enumerate(n.get("a", ())):
+                if i >= len(ps) or not (a.get("k") == "ref"
+                                        and a.get("d") == "param"
+                                        and a.get("n") in cints):
+                    continue
+                pt = strip_type(ps[i].get("t", ""))
+                at = cints[a["n"]]
+                if pt not in RANK:
+                    continue
+                nint += 1
+                key = "%s:%s" % (f["n"], a["n"])
+                if pt == "bool":
+                    continue            # C flag convention: non-zero = true
+                lossy = (sign(at) != sign(pt) and not (
+                    sign(at) == "u" and sign(pt) == "s"
+                    and RANK[pt] > RANK[at])) or RANK[pt] < RANK[at]
+                R.instance("R42.6", key, sample={
+                    "function": f["n"], "parameter": "%s %s" % (at, a["n"]),
+                    "passed_as": pt, "callee": show(n)[:50],
+                    "value_preserving": not lossy})
+                if lossy:
+                    R.violation(
+                        "R42.6", key, prog.loc(f, n.get("l")),
+                        "%s passes its `%s %s` to a `%s` parameter of `%s`: "
+                        "the implicit conversion changes values outside the "
+                        "common range (e.g. ULONG_MAX becomes -1) and no "
+                        "error code is returned" % (
+                            f["n"], at, a["n"], pt, show(n)[:50]))
+    R.floor("C integer parameters handed to the C++ API", nint, 10)
 
     # ---------------------------------------------------------------- R42.3
     nops = 0
